@@ -69,7 +69,8 @@ Record rcfg := mkCfg {
 
 (* a noise draw and the place it is added: 0 = noise_in, 1 = noise_fb, 2 = noise_rc *)
 Record ndraw := mkND { nd_role : nat; nd_draw : draw }.
-Record runrec := mkRun { rr_x : nat; rr_T : nat; rr_noise : list ndraw }.
+(* one call of run(): input id, number of steps, whether the feedback term Wfb.y was active, noise draws *)
+Record runrec := mkRun { rr_x : nat; rr_T : nat; rr_fb : bool; rr_noise : list ndraw }.
 
 Record rnode := mkNode {
   n_cfg : rcfg;
@@ -190,6 +191,11 @@ Fixpoint run_noise (T : nat) (st : state) (n : rnode) (din : nat) : state * list
   end.
 
 Definition wfb_mat (n : rnode) : option mat := match n_wfb n with Some (m, _) => Some m | None => None end.
+(* reservoir_kernel adds Wfb.y only when the node has a feedback connection *)
+Definition fb_active (n : rnode) : bool := match n_wfb n with Some _ => c_fb (n_cfg n) | None => false end.
+(* res <<= readout on an existing node: has_feedback becomes True, nothing else changes *)
+Definition set_fb (c : rcfg) : rcfg :=
+  mkCfg (c_units c) (c_src c) true (c_gin c) (c_gfb c) (c_grc c) (c_ndist c) (c_bias c) (c_W c) (c_Win c) (c_B c) (c_Fb c) (c_hyp c).
 
 Definition do_run (st : state) (i : nat) (n : rnode) (x T : nat) : state * list event :=
   match n_params n with
@@ -197,7 +203,7 @@ Definition do_run (st : state) (i : nat) (n : rnode) (x T : nat) : state * list 
       if c_fb (n_cfg n) && (match n_wfb n with None => true | _ => false end) then (st, [])   (* Wfb is None: run raises *)
       else
         let '(st1, l) := run_noise T st n din in
-        let log := n_log n ++ [mkRun x T l] in
+        let log := n_log n ++ [mkRun x T (fb_active n) l] in
         (set_node st1 i (mkNode (n_cfg n) (n_rng n) (n_params n) (n_wfb n) log),
          [mkEv (Some i) TAG_RUN (TRun (c_hyp (n_cfg n)) W Win b (wfb_mat n) log)])
   | None => (st, [])
@@ -216,7 +222,8 @@ Inductive op :=
 | ODataset (sd : src) (r : req) (post : nat)  (* mackey_glass / narma (r built by mg_req / narma_req) *)
 | ODsSetSeed (s : nat)                        (* reservoirpy.datasets.set_seed(s) *)
 | OSkNode (i : nat) (rs : option nat) (has_rs : bool) (cfg : nat)   (* ScikitLearnNode(model, model_hypers) *)
-| OSkFit (i data : nat).                      (* node.fit(X, Y) *)
+| OSkFit (i data : nat)                       (* node.fit(X, Y) *)
+| OAttachFb (i : nat).                        (* node <<= readout  (feedback attached after construction, possibly after runs) *)
 
 Definition mg_req (history_length : nat) : req := mkReq DRANDOM history_length 1 0.   (* rs.random(history_length) *)
 Definition narma_req (n_plus_order : nat) : req := mkReq DUNIF n_plus_order 1 0.      (* rs.uniform(0, 0.5, (n+order,1)) *)
@@ -268,6 +275,11 @@ Definition step (st : state) (o : op) : state * list event :=
                   (set_sk st i (mkSk (k_cfg k) (k_rs k) f), [mkEv None TAG_SK (TSk (k_cfg k) (k_rs k) f)])
       | None => (st, [])
       end
+  | OAttachFb i =>
+      match nodes st i with
+      | Some n => (set_node st i (mkNode (set_fb (n_cfg n)) (n_rng n) (n_params n) (n_wfb n) (n_log n)), [])
+      | None => (st, [])
+      end
   end.
 
 Fixpoint exec (st : state) (h : list op) : state * list event :=
@@ -280,7 +292,7 @@ Fixpoint exec (st : state) (h : list op) : state * list event :=
 (* which reservoir an operation addresses *)
 Definition touches (i : nat) (o : op) : bool :=
   match o with
-  | OConstruct j _ | OInit j _ | OInitFb j _ | ORun j _ _ _ => i =? j
+  | OConstruct j _ | OInit j _ | OInitFb j _ | ORun j _ _ _ | OAttachFb j => i =? j
   | _ => false
   end.
 Definition proj (i : nat) (evs : list event) : list event :=
@@ -298,7 +310,7 @@ Proof. decide equality; try apply Nat.eq_dec; apply draw_eq_dec. Defined.
 Definition ndraw_eq_dec (a b : ndraw) : {a = b} + {a <> b}.
 Proof. decide equality; [apply draw_eq_dec | apply Nat.eq_dec]. Defined.
 Definition runrec_eq_dec (a b : runrec) : {a = b} + {a <> b}.
-Proof. decide equality; try apply Nat.eq_dec; apply (list_eq_dec ndraw_eq_dec). Defined.
+Proof. decide equality; try apply Nat.eq_dec; try apply Bool.bool_dec; apply (list_eq_dec ndraw_eq_dec). Defined.
 Definition omat_eq_dec (a b : option mat) : {a = b} + {a <> b}.
 Proof. decide equality; apply mat_eq_dec. Defined.
 Definition term_eq_dec (a b : term) : {a = b} + {a <> b}.
